@@ -1,10 +1,16 @@
 // C09: the Boolean function written by a parsed formula, relative to the label -> index dictionary.
 // rule S: VarContainer (Arc<RwLock<HashMap>>) and AdfParser are opaque stubs; their specs are ASSUMED (the parser side is C08).
-pub uninterp spec fn vc_index(vc: &VarContainer, name: &str) -> Option<usize>;
+pub uninterp spec fn vc_index(vc: &VarContainer, name: Seq<char>) -> Option<usize>;
+pub uninterp spec fn vc_name(vc: &VarContainer, i: int) -> Option<Seq<char>>;
 impl VarContainer {
     #[verifier::external_body]
     pub fn variable(&self, name: &str) -> (r: Option<Var>)
-        ensures match r { Some(v) => vc_index(self, name) == Some(v.0), None => vc_index(self, name).is_none() }
+        ensures match r { Some(v) => vc_index(self, name@) == Some(v.0), None => vc_index(self, name@).is_none() }
+    { unimplemented!() }
+    // ASSUMED: the label list and the label -> index map are inverse to each other
+    #[verifier::external_body]
+    pub fn name(&self, var: Var) -> (r: Option<String>)
+        ensures match r { Some(s) => vc_name(self, var.0 as int) == Some(s@) && vc_index(self, s@) == Some(var.0), None => vc_name(self, var.0 as int).is_none() }
     { unimplemented!() }
 }
 pub open spec fn fsem(f: Formula, vc: &VarContainer) -> BF
@@ -13,7 +19,7 @@ pub open spec fn fsem(f: Formula, vc: &VarContainer) -> BF
     match f {
         Formula::Bot => bf_const(false),
         Formula::Top => bf_const(true),
-        Formula::Atom(a) => bf_var(vc_index(vc, a).unwrap()),
+        Formula::Atom(a) => bf_var(vc_index(vc, a@).unwrap()),
         Formula::Not(x) => bf_not(fsem(*x, vc)),
         Formula::And(x, y) => bf_and(fsem(*x, vc), fsem(*y, vc)),
         Formula::Or(x, y) => bf_or(fsem(*x, vc), fsem(*y, vc)),
@@ -28,7 +34,7 @@ pub open spec fn atoms_ok(f: Formula, vc: &VarContainer, n: int) -> bool
 {
     match f {
         Formula::Bot => true, Formula::Top => true,
-        Formula::Atom(a) => vc_index(vc, a).is_some() && vc_index(vc, a).unwrap() < n,
+        Formula::Atom(a) => vc_index(vc, a@).is_some() && vc_index(vc, a@).unwrap() < n,
         Formula::Not(x) => atoms_ok(*x, vc, n),
         Formula::And(x, y) => atoms_ok(*x, vc, n) && atoms_ok(*y, vc, n),
         Formula::Or(x, y) => atoms_ok(*x, vc, n) && atoms_ok(*y, vc, n),
@@ -44,6 +50,15 @@ pub uninterp spec fn p_n(p: &AdfParser) -> nat;                       // number 
 pub uninterp spec fn p_vc(p: &AdfParser) -> VarContainer;             // the dictionary
 pub uninterp spec fn p_order(p: &AdfParser) -> Seq<usize>;            // insertion position -> variable index of the statement the formula belongs to
 pub uninterp spec fn p_formula<'a>(p: &AdfParser<'a>, i: int) -> Formula<'a>;
+pub uninterp spec fn p_names(p: &AdfParser) -> Seq<Seq<char>>;       // statement labels in index order
+// position of a label in a list of labels
+pub open spec fn names_index(names: Seq<Seq<char>>, s: Seq<char>) -> Option<usize> { biodivine_lib_bdd::bld_index(names, s) }
+// the dictionary is the inverse of the label list (ASSUMED parser invariant, C08 side)
+pub open spec fn p_names_wf(p: &AdfParser) -> bool {
+    &&& p_names(p).len() == p_n(p)
+    &&& forall|s: Seq<char>| #[trigger] vc_index(&p_vc(p), s) == names_index(p_names(p), s)
+    &&& forall|i: int| 0 <= i < p_n(p) ==> vc_name(&p_vc(p), i).is_some()
+}
 pub open spec fn p_wf(p: &AdfParser) -> bool {
     &&& p_n(p) < usize::MAX - 1
     &&& forall|k: int| 0 <= k < p_order(p).len() ==> (#[trigger] p_order(p)[k]) < p_n(p) && atoms_ok(p_formula(p, k), &p_vc(p), p_n(p) as int)
@@ -56,28 +71,4 @@ impl<'a> AdfParser<'a> {
     #[verifier::external_body] pub fn formula_count(&self) -> (r: usize) ensures r == p_order(self).len() { unimplemented!() }
     #[verifier::external_body] pub fn ac_at(&self, idx: usize) -> (r: Option<Formula<'a>>)
         ensures match r { Some(f) => idx < p_order(self).len() && f == p_formula(self, idx as int), None => idx >= p_order(self).len() } { unimplemented!() }
-}
-impl Adf {
-    // ASSUMED: a fresh random generator (only heu_rand reads it)
-    #[verifier::external_body] pub fn default_rng() -> StdRng { unimplemented!() }
-    // the stored handle of every statement that has a formula denotes that formula's function (C09, native)
-    pub open spec fn compiled(&self, p: &AdfParser) -> bool {
-        &&& self.ac@.len() == p_n(p)
-        &&& forall|k: int| 0 <= k < p_order(p).len() ==> den(self.bdd.nodes@, self.ac@[#[trigger] p_order(p)[k] as int].0 as int) == fsem(p_formula(p, k), &p_vc(p))
-    }
-}
-pub proof fn lemma_atoms_mono(f: Formula, vc: &VarContainer, n: int, m: int)
-    requires atoms_ok(f, vc, n), n <= m,
-    ensures atoms_ok(f, vc, m)
-    decreases f
-{
-    match f {
-        Formula::Bot => {}, Formula::Top => {}, Formula::Atom(a) => {},
-        Formula::Not(x) => { lemma_atoms_mono(*x, vc, n, m); }
-        Formula::And(x, y) => { lemma_atoms_mono(*x, vc, n, m); lemma_atoms_mono(*y, vc, n, m); }
-        Formula::Or(x, y) => { lemma_atoms_mono(*x, vc, n, m); lemma_atoms_mono(*y, vc, n, m); }
-        Formula::Imp(x, y) => { lemma_atoms_mono(*x, vc, n, m); lemma_atoms_mono(*y, vc, n, m); }
-        Formula::Xor(x, y) => { lemma_atoms_mono(*x, vc, n, m); lemma_atoms_mono(*y, vc, n, m); }
-        Formula::Iff(x, y) => { lemma_atoms_mono(*x, vc, n, m); lemma_atoms_mono(*y, vc, n, m); }
-    }
 }
